@@ -4,11 +4,13 @@ package gate
 
 import (
 	"errors"
+	"bytes"
 	"fmt"
+	"runtime"
+	"strconv"
 	"sync"
 	"time"
 
-	"github.com/petermattis/goid"
 )
 
 // Decision tells a parked operation how to continue.
@@ -64,7 +66,7 @@ func (s *Sched) Go(name string, fn func() (interface{}, error)) *Proc {
 	p := &Proc{Name: name, parked: make(chan *Point), done: make(chan struct{})}
 	started := make(chan struct{})
 	go func() {
-		id := goid.Get()
+		id := curGoid()
 		s.mu.Lock()
 		s.procs[id] = p
 		s.mu.Unlock()
@@ -83,7 +85,7 @@ func (s *Sched) Go(name string, fn func() (interface{}, error)) *Proc {
 
 // Adopt registers the calling goroutine as (part of) process p until the returned func is called.
 func (s *Sched) Adopt(p *Proc) func() {
-	id := goid.Get()
+	id := curGoid()
 	s.mu.Lock()
 	s.procs[id] = p
 	s.mu.Unlock()
@@ -104,7 +106,7 @@ func (s *Sched) At(op, key, val string) Decision {
 	if s == nil {
 		return Proceed
 	}
-	id := goid.Get()
+	id := curGoid()
 	s.mu.Lock()
 	p := s.procs[id]
 	free := s.Free
@@ -176,4 +178,15 @@ func (p *Proc) Finish2(d Decision, timeout time.Duration) error {
 		return err
 	}
 	return p.Finish(timeout)
+}
+
+// curGoid parses the goroutine id from the stack header ("goroutine 123 [running]:").
+func curGoid() int64 {
+	var buf [64]byte
+	n := runtime.Stack(buf[:], false)
+	b := buf[:n]
+	b = b[len("goroutine "):]
+	i := bytes.IndexByte(b, ' ')
+	id, _ := strconv.ParseInt(string(b[:i]), 10, 64)
+	return id
 }
